@@ -651,6 +651,10 @@ class RunningShow:
 
     def _run_next_step(self, post_events=None, pause_after_step=False) -> None:
         """Run the next show step."""
+        if self._stopped:
+            # a stopped or completed show must not play steps (e.g. on step_back/advance/resume for its old key)
+            return
+
         events = []
         if post_events:
             events.extend(post_events)
